@@ -10,6 +10,7 @@ defaults, reordered index / constraint / unique_together lists, other
 db_table).
 """
 import copy
+import json
 
 import random
 
@@ -345,7 +346,13 @@ def run_case(desc):
         # the comparison lost something
         if e1 and e2:
             stats['empty_pairs'] = stats.get('empty_pairs', 0) + 1
-            sa, sb = a.serialize(), b.serialize()
+            # (the order of the fields / models inside their mappings is
+            # not part of the schema: mappings are compared as sets of keys,
+            # lists - index columns, together entries - in order)
+            sa = json.loads(json.dumps(a.serialize(), sort_keys=True,
+                                       default=str))
+            sb = json.loads(json.dumps(b.serialize(), sort_keys=True,
+                                       default=str))
             if sa != sb:
                 items.append({'type': 'DIFF_EMPTY_STORED_FORM_DIFFERS',
                               'detail': _first_difference(sa, sb)})
